@@ -378,6 +378,6 @@ def run_case(case, rec, ctx):
 
 META = {
     "technique": "runtime contracts on formulate_scattering_angle / formulate_theta_hat_angle / formulate_zeta_angle: lambdified results compared with angles measured on generated four-momenta and with the identities of the statement",
-    "level_text": "All index tuples the three functions accept are evaluated on masses derived from generated three-body events (six mass classes incl. massless/equal/near-threshold, five event strata incl. collinear and threshold) and judged against vector-algebra angles (theta-hat, scattering angle, elementary zeta angle) and the listed identities (antisymmetry, theta_ij+theta_ji=pi, zeta reference rules, cyclic sum rules, arccos domain). Observation of executions only.",
+    "level_text": "All index tuples the three functions accept are evaluated on masses derived from generated three-body events (six mass classes incl. massless/equal/near-threshold, five event strata incl. collinear and threshold) and judged against vector-algebra angles (theta-hat, scattering angle, elementary zeta angle) and the listed identities (antisymmetry, theta_ij+theta_ji=pi, zeta reference rules, cyclic sum rules, arccos domain). Observation of executions only. Route B (exact masses inserted before doit(), exact zeros for massless particles) is compared with the symbolic route for every formula.",
     "level_note": "Reference geometry follows the property text (angle of i w.r.t. -p_k in the (ij) frame); acos conditioning 1/sin(angle) enters the tolerance; points within rounding of the Dalitz boundary are judged only for arccos-domain excursions > 1e-7.",
 }
